@@ -402,7 +402,9 @@ GStall ==
        \E s \in R(LET all == {x \in J : ~sess[x].stalled}
                       \* preferably somebody who is serving a call (its queue then matters to the dealer)
                       serving == {x \in all : \E c \in DOMAIN calls : calls[c].callee = x}
-                  IN IF serving # {} /\ pick # 1 THEN serving ELSE all) :
+                      \* (scripted: somebody who holds a subscription other than to the meta topics - its queue can be filled)
+                      listening == {x \in all : \E k \in DOMAIN subs : x \in subs[k].members /\ ~IsWampURI(k[1])}
+                  IN IF Scripted /\ listening # {} THEN listening ELSE IF serving # {} /\ pick # 1 THEN serving ELSE all) :
          Step([In0 EXCEPT !.op = "stall", !.s = s], StallFx(Cur, s))
 
 \* the caller of a pending call stops reading (its callee's next YIELD is then held back, C07)
@@ -464,8 +466,12 @@ GBurstMix ==
           \* wait on each other in a cycle)
           loops == LET a == CHOOSE x \in J : TRUE
                        b == IF J \ {a} = {} THEN a ELSE CHOOSE x \in J \ {a} : TRUE
-                   IN << [s |-> a, ops |-> <<[In0 EXCEPT !.op = "regchurn", !.s = a, !.req = N * 100 + 1000, !.id = 25]>>],
-                         [s |-> b, ops |-> <<[In0 EXCEPT !.op = "metaloop", !.s = b, !.req = N * 100 + 2000, !.id = 25]>>] >>
+                       \* ... while a registers and unregisters its procedure, b keeps calling it (a answers what reaches
+                       \* it): no INVOCATION before REGISTERED, none after UNREGISTERED, whatever the interleaving (C08)
+                   IN << [s |-> a, ops |-> <<[In0 EXCEPT !.op = "respond", !.s = a, !.id = 1],
+                                             [In0 EXCEPT !.op = "regchurn", !.s = a, !.req = N * 100 + 1000, !.id = 25]>>],
+                         [s |-> b, ops |-> <<[In0 EXCEPT !.op = "callloop", !.s = b, !.req = N * 100 + 3000, !.id = 25, !.tag = a],
+                                             [In0 EXCEPT !.op = "metaloop", !.s = b, !.req = N * 100 + 2000, !.id = 25]>>] >>
           \* one program per session
           progs0 == <<PubProg(p1, u1, FALSE, n1), churn>> \o rpc \o (IF n1 # 4 THEN loops ELSE <<>>)
           names == {progs0[j].s : j \in DOMAIN progs0}
@@ -544,8 +550,13 @@ GMetaSub ==
       [] which = 5 -> MetaStep(s, [In0 EXCEPT !.uri = U_subscription_list_subscribers, !.id = id])
       [] OTHER     -> MetaStep(s, [In0 EXCEPT !.uri = U_subscription_count_suscribers, !.id = id])
 
+\* (scripted: a session that does not read - preferably one whose queue is full - is killed by its id)
+DeafIds == LET deaf == {v \in Joined(Cur) : sess[v].stalled}
+               full == {v \in deaf : ~Room(Cur, v)}
+           IN {sess[v].id : v \in IF full # {} THEN full ELSE deaf}
 GKill ==
-  \E s \in J : \E which \in W(<<1, 1, 2, 3, 4, 4>>) : \E id \in R(SidArgs), reason \in W(<<<<>>, <<>>, <<>>, <<>>, U_kicked, U_badreason, U_shutdown>>),
+  \E s \in J : \E which \in (IF Scripted /\ DeafIds # {} THEN {1} ELSE W(<<1, 1, 2, 3, 4, 4>>)) :
+  \E id \in R(IF Scripted /\ DeafIds # {} THEN DeafIds ELSE SidArgs), reason \in W(<<<<>>, <<>>, <<>>, <<>>, U_kicked, U_badreason, U_shutdown>>),
      role \in R(Roles), aid \in R(Authids) :
     CASE which = 1 -> MetaStep(s, [In0 EXCEPT !.uri = U_session_kill, !.id = id, !.uri2 = reason])
       [] which = 2 -> MetaStep(s, [In0 EXCEPT !.uri = U_session_kill_by_authid, !.args = <<aid>>, !.uri2 = reason])
